@@ -51,6 +51,39 @@ func init() {
 			m.Entries = append(m.Entries, &MapEntry{Key: a[1], Val: a[2]})
 			return TupleV{a[2], ex.tb.False}
 		},
+		// sync.Pool: Get hands out the most recently Put object (the reuse that makes aliasing visible) or,
+		// as the solver chooses, a fresh one from New; an empty pool calls New (nil without New).
+		"(*sync.Pool).Put": func(ex *Exec, fn *ssa.Function, a []Value, fr *Frame) Value {
+			p := a[0].(*Pointer)
+			key := fmt.Sprintf("pool:%d:%v", p.Obj.ID, p.Path)
+			if iv, ok := a[1].(*IfaceV); ok && iv.Typ == nil {
+				return nil
+			}
+			ex.pools[key] = append(ex.pools[key], a[1])
+			return nil
+		},
+		"(*sync.Pool).Get": func(ex *Exec, fn *ssa.Function, a []Value, fr *Frame) Value {
+			p := a[0].(*Pointer)
+			key := fmt.Sprintf("pool:%d:%v", p.Obj.ID, p.Path)
+			if lst := ex.pools[key]; len(lst) > 0 {
+				reuse := ex.freshVar("pool.reuse", 1)
+				if ex.branch(ex.tb.Eq(reuse, ex.tb.BV(1, 1))) {
+					v := lst[len(lst)-1]
+					ex.pools[key] = lst[:len(lst)-1]
+					return v
+				}
+			}
+			st := fn.Signature.Recv().Type().(*types.Pointer).Elem().Underlying().(*types.Struct)
+			for i := 0; i < st.NumFields(); i++ {
+				if st.Field(i).Name() == "New" {
+					q := &Pointer{Obj: p.Obj, Path: append(append([]PathEl{}, p.Path...), PathEl{Idx: i})}
+					if nf, ok := ex.load(q).(*FuncV); ok && (nf.Fn != nil || nf.Intr != "") {
+						return ex.invoke(nf, nil, fr)
+					}
+				}
+			}
+			return &IfaceV{}
+		},
 		"(*sync.Once).Do": func(ex *Exec, fn *ssa.Function, a []Value, fr *Frame) Value {
 			p := a[0].(*Pointer)
 			key := fmt.Sprintf("once:%d:%v", p.Obj.ID, p.Path)
@@ -168,6 +201,37 @@ func init() {
 		},
 		"encoding/binary.Read":  intrBinaryRead,
 		"(*bytes.Buffer).Read": intrBufferRead,
+		"(*bytes.Buffer).Reset": func(ex *Exec, fn *ssa.Function, a []Value, fr *Frame) Value {
+			// b.buf = b.buf[:0]; b.off = 0   (the backing array is kept: later writes reuse it)
+			o, buf, _ := ex.bufParts(a[0])
+			sv := o.Val.(StructV)
+			if buf.Arr != nil {
+				sv[0] = &SliceV{Arr: buf.Arr, Off: buf.Off, Len: ex.i64(0), Cap: buf.Cap, Elem: buf.Elem}
+			}
+			sv[1] = ex.i64(0)
+			return nil
+		},
+		"strings.TrimRight":  concStr2(strings.TrimRight),
+		"strings.TrimLeft":   concStr2(strings.TrimLeft),
+		"strings.Trim":       concStr2(strings.Trim),
+		"strings.TrimPrefix": concStr2(strings.TrimPrefix),
+		"strings.TrimSuffix": concStr2(strings.TrimSuffix),
+		"strings.ToUpper":    concStr1(strings.ToUpper),
+		"strings.Title":      concStr1(strings.Title),
+		"strings.ReplaceAll": func(ex *Exec, fn *ssa.Function, a []Value, fr *Frame) Value {
+			x, ok1 := ex.goString(a[0].(*StringV))
+			y, ok2 := ex.goString(a[1].(*StringV))
+			z, ok3 := ex.goString(a[2].(*StringV))
+			if !ok1 || !ok2 || !ok3 {
+				panic(unsupported("strings.ReplaceAll on symbolic input"))
+			}
+			return ex.constStr(strings.ReplaceAll(x, y, z))
+		},
+		"strings.HasSuffix": concStrBool2(strings.HasSuffix),
+		"strings.EqualFold": concStrBool2(strings.EqualFold),
+		"strings.Index":     concStrInt2(strings.Index),
+		"strings.LastIndex": concStrInt2(strings.LastIndex),
+		"strings.Count":     concStrInt2(strings.Count),
 		"(encoding/binary.bigEndian).Uint32": func(ex *Exec, fn *ssa.Function, a []Value, fr *Frame) Value { return ex.getUint(a[1].(*SliceV), 4) },
 		"(encoding/binary.bigEndian).Uint64": func(ex *Exec, fn *ssa.Function, a []Value, fr *Frame) Value { return ex.getUint(a[1].(*SliceV), 8) },
 		"(encoding/binary.bigEndian).PutUint32": func(ex *Exec, fn *ssa.Function, a []Value, fr *Frame) Value { return ex.putUint(a[1].(*SliceV), a[2].(*Term), 4) },
@@ -539,6 +603,12 @@ func (ex *Exec) verifCall(fn *ssa.Function, args []Value, fr *Frame) Value {
 		}
 		ex.ghost[fmt.Sprintf("onlock:%p", ex.lockState(mp))] = args[1].(*FuncV)
 		return nil
+	case "verifConfigFieldsNotPersisted":
+		bad := ex.ld.configFieldsNotPersisted()
+		for _, b := range bad {
+			ex.res.Events = append(ex.res.Events, "config field not persisted: "+b)
+		}
+		return ex.i64(int64(len(bad)))
 	case "verifSpawnedCount":
 		lst, _ := ex.ghost["spawned"].([]deferred)
 		return ex.i64(int64(len(lst)))
@@ -1187,6 +1257,50 @@ func intrBinaryRead(ex *Exec, fn *ssa.Function, a []Value, fr *Frame) Value {
 
 // (*bytes.Buffer).Read: copies min(len(p), remaining) bytes; an empty buffer answers io.EOF unless
 // len(p) == 0; a partial read is NOT an error.
+// pure string functions evaluated on concrete arguments only (symbolic arguments: unsupported)
+func concStr1(f func(string) string) func(*Exec, *ssa.Function, []Value, *Frame) Value {
+	return func(ex *Exec, fn *ssa.Function, a []Value, fr *Frame) Value {
+		x, ok := ex.goString(a[0].(*StringV))
+		if !ok {
+			panic(unsupported(fn.String() + " on symbolic input"))
+		}
+		return ex.constStr(f(x))
+	}
+}
+
+func concStr2(f func(string, string) string) func(*Exec, *ssa.Function, []Value, *Frame) Value {
+	return func(ex *Exec, fn *ssa.Function, a []Value, fr *Frame) Value {
+		x, ok1 := ex.goString(a[0].(*StringV))
+		y, ok2 := ex.goString(a[1].(*StringV))
+		if !ok1 || !ok2 {
+			panic(unsupported(fn.String() + " on symbolic input"))
+		}
+		return ex.constStr(f(x, y))
+	}
+}
+
+func concStrBool2(f func(string, string) bool) func(*Exec, *ssa.Function, []Value, *Frame) Value {
+	return func(ex *Exec, fn *ssa.Function, a []Value, fr *Frame) Value {
+		x, ok1 := ex.goString(a[0].(*StringV))
+		y, ok2 := ex.goString(a[1].(*StringV))
+		if !ok1 || !ok2 {
+			panic(unsupported(fn.String() + " on symbolic input"))
+		}
+		return ex.tb.Bool(f(x, y))
+	}
+}
+
+func concStrInt2(f func(string, string) int) func(*Exec, *ssa.Function, []Value, *Frame) Value {
+	return func(ex *Exec, fn *ssa.Function, a []Value, fr *Frame) Value {
+		x, ok1 := ex.goString(a[0].(*StringV))
+		y, ok2 := ex.goString(a[1].(*StringV))
+		if !ok1 || !ok2 {
+			panic(unsupported(fn.String() + " on symbolic input"))
+		}
+		return ex.i64(int64(f(x, y)))
+	}
+}
+
 func intrBufferRead(ex *Exec, fn *ssa.Function, a []Value, fr *Frame) Value {
 	tb := ex.tb
 	o, buf, off := ex.bufParts(a[0])
